@@ -276,19 +276,4 @@ theorem adjOk_congr {R S : Bytes → Bytes → Bool} {l : List Bytes}
       simp only [adjOk]
       rw [h a (List.mem_cons_self) b, ih (fun x hx => h x (List.mem_cons_of_mem a hx))]
 
-/-- When no element is empty, the writer's and the reader's validators coincide. -/
-theorem validSeq_write_eq_read (r : Rules) {l : List Bytes} (h : (r.lex && r.noDups) = true → ∀ a ∈ l, a ≠ []) :
-    validSeq r true l = validSeq r false l := by
-  unfold validSeq
-  cases hl : r.lex <;> cases hd : r.noDups <;> simp
-  have hne := h (by simp [hl, hd])
-  congr 2
-  apply adjOk_congr
-  intro a ha b
-  have : a.isEmpty = false := by
-    cases a with
-    | nil => exact absurd rfl (hne [] ha)
-    | cons x xs => rfl
-  simp [this]
-
 end Hive.Serix
